@@ -449,3 +449,8 @@ GSST = 'src/ompl/geometric/planners/sst/src/SST.cpp'
 seed('c04-prm-argmin-bound-not-updated', 'C04', [(PRMC, "                        solution = p;\n                        sol_cost = pathCost;\n", "                        solution = p;\n")], 'R04e')
 seed('c04-fmt-bestparent-heuristic', 'C04', [(FMTC, "const base::Cost dist = opt_->motionCost(s, m->getState());", "const base::Cost dist = opt_->motionCostHeuristic(s, m->getState());")], 'R04i')
 seed('c04-sst-inccost-heuristic', 'C04', [(GSST, "base::Cost incCost = opt_->motionCost(nmotion->state_, rstate);", "base::Cost incCost = opt_->motionCostHeuristic(nmotion->state_, rstate);")], 'R04i')
+VFRC = 'src/ompl/geometric/planners/rrt/src/VFRRT.cpp'
+seed('c03-rrtconnect-clear-keeps-tree-distance', 'C03', [(RRTCC, "    distanceBetweenTrees_ = std::numeric_limits<double>::infinity();\n}\n\nompl::geometric::RRTConnect::GrowState", "}\n\nompl::geometric::RRTConnect::GrowState")], 'R03l')
+seed('c03-fmt-clear-keeps-open-set', 'C03', [(FMTC, "    Open_.clear();\n    neighborhoods_.clear();\n\n    collisionChecks_ = 0;", "    neighborhoods_.clear();\n\n    collisionChecks_ = 0;")], 'R03l')
+seed('c03-vfrrt-clear-keeps-lambda', 'C03', [(VFRC, "    lambda_ = initialLambda_;\n", "")], 'R03l')
+seed('c03-n-vfrrt-clear-reordered', 'C03', [(VFRC, "    lambda_ = initialLambda_;\n    step_ = 0;\n", "    step_ = 0;\n    lambda_ = initialLambda_;\n")], None)
